@@ -140,7 +140,7 @@ func planScreen(rng *rand.Rand, nops int, w, h int, mix string, rich bool, hasCa
 			case k < 70:
 				add(sop{Op: "SetTitle", S: []string{"t1", "hello world", ""}[rng.Intn(3)]})
 			case k < 80:
-				add(sop{Op: "EnableMouse", N: 1 + rng.Intn(7)})
+				add(sop{Op: "EnableMouse", N: 1 + rng.Intn(8)})
 			case k < 85:
 				add(sop{Op: "EnablePaste"})
 			case k < 90:
@@ -205,7 +205,7 @@ func planScreen(rng *rand.Rand, nops int, w, h int, mix string, rich bool, hasCa
 			}
 			switch rng.Intn(14) {
 			case 0:
-				add(sop{Op: "EnableMouse", N: rng.Intn(8)})
+				add(sop{Op: "EnableMouse", N: rng.Intn(9)})
 			case 1:
 				add(sop{Op: "DisableMouse"})
 			case 2:
@@ -462,8 +462,13 @@ func (r *screenRun) run(ops []sop, w, h int, truecolor bool, altscreen bool) err
 		case "Corrupt":
 			e["x"], e["y"], e["n"] = o.X, o.Y, o.N
 		case "EnableMouse":
-			s.EnableMouse(tcell.MouseFlags(o.N))
-			e["n"] = o.N
+			if o.N >= 8 { // the no-argument form enables everything
+				s.EnableMouse()
+				e["n"] = 7
+			} else {
+				s.EnableMouse(tcell.MouseFlags(o.N))
+				e["n"] = o.N
+			}
 		case "DisableMouse":
 			s.DisableMouse()
 		case "EnablePaste":
